@@ -201,10 +201,11 @@ def r2(ctx):
                 def decide(c_, vals, colour=colour):
                     cn = norm(c_)
                     if cn[0] == 'call' and 'PartialEq' in cn[1] and (cn[1].endswith('::eq') or cn[1].endswith('::ne')) and len(cn[2]) == 2:
-                        for x, y in ((cn[2][0], cn[2][1]), (cn[2][1], cn[2][0])):
+                        ops = [norm(il_fold(ctx, a_)) if a_[0] == 'call' else a_ for a_ in cn[2]]    # accessor form
+                        for x, y in ((ops[0], ops[1]), (ops[1], ops[0])):
                             if x == STMF and y in (W, B):
                                 return as_bool((y[2] == colour) == cn[1].endswith('::eq'), vals)
-                    if cn == ('discr', STMF):
+                    if cn[0] == 'discr' and (cn[1] == STMF or (cn[1][0] == 'call' and norm(il_fold(ctx, cn[1])) == STMF)):
                         return ctx.facts().enum_discr(COLOR, colour)
                     return None
                 if any(conj_possible(conj, decide) for conj in dnf(d, c['blk'])):
